@@ -10,7 +10,7 @@ Functions that can have more than one answer the statement allows return a *tupl
 results*; all others return the single expected result.  Nothing here imports pycel.
 """
 import re
-from decimal import Decimal, ROUND_HALF_UP
+from decimal import Decimal, ROUND_HALF_EVEN, ROUND_HALF_UP
 
 ERRORS = ('#NULL!', '#DIV/0!', '#VALUE!', '#REF!', '#NAME?', '#NUM!', '#N/A')
 VALUE = '#VALUE!'
@@ -213,12 +213,18 @@ def is_tie(x, fmt):
     return (abs(d).scaleb(places) % 1) == Decimal('0.5')
 
 
-def text_number(x, fmt):
-    """tuple of acceptable renderings of the number x under fmt"""
+def text_number(x, fmt, binary_half_even=False):
+    """tuple of acceptable renderings of the number x under fmt.
+    binary_half_even=True is NOT the specification: it is the rendering obtained by rounding the binary
+    double (multiplied by 100 in binary for %) half-even, used only to name that mechanism."""
     p = parse_format(fmt)
     assert p is not None, fmt
     d, places = text_scaled(x, fmt)
-    q = abs(d).quantize(Decimal(1).scaleb(-places), rounding=ROUND_HALF_UP)
+    rounding = ROUND_HALF_UP
+    if binary_half_even:
+        d = Decimal(x * 100 if p['percent'] else x)
+        rounding = ROUND_HALF_EVEN
+    q = abs(d).quantize(Decimal(1).scaleb(-places), rounding=rounding)
     s = format(q, 'f')
     ip, _, fp = s.partition('.')
     ip = ip.zfill(p['int_zeros'])
